@@ -34,11 +34,19 @@ def gen_case(rng, car):
         op = rng.choice(["OAdd", "ORAdd", "OSub", "ORSub", "OMul", "ORMul"])
         kinds = ["int", "float", "npf64", "npf32", "npi64", "t0", "t1"] + (["complex"] if cplx else [])
         if op not in ("OSub", "ORSub"): kinds.append("bool")      # torch has no tensor - bool
+        if rng.random() < 0.2: kinds = ["npu8", "npi32", "tu8", "ti64"]      # integer scalars of other widths, unsigned included
         kind = rng.choice(kinds)
         v = rng.choice([0, 1, 2, -3, 5]) if kind != "bool" else rng.choice([0, 1])
+        if kind in ("npu8", "tu8"): v = abs(v)
         if cplx and kind in ("complex", "t0", "t1") and rng.random() < 0.5:
             v = complex(v, rng.choice([1, -2]))
         return Op(op, [x, Scal(kind, v)]), "scalar", None
+    if r < 0.735 and not cplx:      # a REAL operand with a scalar of a wider type: complex scalars (python, numpy, 0-d tensor); the result is complex
+        x = gen_tt(rng, cplx=False)
+        op = rng.choice(["OAdd", "ORAdd", "OSub", "ORSub", "OMul", "ORMul"])
+        kind = rng.choice(["complex", "npc128", "tc0"])
+        if kind == "tc0" and op in ("ORAdd", "ORSub", "ORMul"): kind = "complex"      # tensor.__op__(TT) is torch's business
+        return Op(op, [x, Scal(kind, complex(rng.choice([0, 1, 2, -3]), rng.choice([1, -2, 3])))]), "scalar-complex-on-real", coqrun.ZI
     if r < 0.76:      # tiny (dyadic) scalars: |c| <= 1e-8 is not zero; wide ones: ~30 significant bits, exact in float64 only
         x = gen_tt(rng, cplx=False)
         if rng.random() < 0.5:
@@ -54,7 +62,10 @@ def gen_case(rng, car):
         vecs = [Dense(ttgen.rand_core(rng, (rng.choice([1, 2, 3, 4]),), cplx, -3, 3)) for _ in range(d)]
         if d >= 2 and rng.random() < 0.5:
             i, j = rng.sample(range(d), 2); vecs[j] = vecs[i]         # the same object on two axes
-        if k < 0.6: return Op("ORank1", vecs), "factory:rank1", None
+        if k < 0.5: return Op("ORank1", vecs), "factory:rank1", None
+        if k < 0.6:       # the documented matrix form: a list of matrices gives the rank-one TT MATRIX (columns [n,1] and rows [1,n] included)
+            mats = [Dense(ttgen.rand_core(rng, (rng.choice([1, 2, 3]), rng.choice([1, 2, 3])), cplx, -3, 3)) for _ in range(d)]
+            return Op("ORank1", mats), "factory:rank1-matrices", None
         return Op("OMeshgrid", vecs, [[rng.randrange(d)]]), "factory:meshgrid", None
     if r < 0.88:      # division by a scalar: dyadic data, model over Qc
         x = gen_tt(rng, cplx=False, mult=rng.choice([1, 2, 4]))
@@ -78,11 +89,11 @@ def gen_case(rng, car):
         return Op(rng.choice(["OAdd", "OSub", "OMul"]), args), "reuse", car2
     x = gen_tt(rng, d=rng.choice([1, 2, 3]), cplx=cplx)
     if rng.random() < 0.2:
-        return Op("OKron", [x, NoneE()]), "kron", None
+        return (Op("OKron", [x, NoneE()]) if rng.random() < 0.5 else Op("OKron", [NoneE(), x])), "kron", None      # x ** None and None ** x (the accumulation idiom)
     return Op("OKron", [x, gen_tt(rng, d=rng.choice([1, 2]), cplx=cplx)]), "kron", None
 
 def nontrivial(e, cat):
-    if cat in ("bcast", "scalar", "div", "scalar-tiny", "scalar-wide") or cat.startswith("factory"):
+    if cat in ("bcast", "scalar", "div", "scalar-tiny", "scalar-wide", "scalar-complex-on-real") or cat.startswith("factory"):
         return True
     return any(isinstance(a, Lit3) and any(c.shape[2] > 1 for c in a.cores[:-1]) for a in e.args)
 
